@@ -595,7 +595,8 @@ def check_verif(case, ctx):
     def digest(ht, slot):
         use = ht
         if wrong == slot:  # sign the digest of another type, keep the type byte
-            pool = [h for h in (HT_TAP if kind.startswith("p2tr") else HT_LEGACY) if h != ht]
+            pool = [h for h in (HT_TAP if kind.startswith("p2tr") else HT_LEGACY)
+                    if h != ht and not (h & 3 == 3 and idx >= case["n_out"])]
             use = pool[(case["locktime"] + slot) % len(pool)]
         if kind in ("p2pkh", "p2sh_2of2"):
             code = ms_b if two else txser.script_bytes(spk)
